@@ -672,3 +672,84 @@ package hermes
 //@   assume forall(k, 0, n, DISP[k] == J[k] - J[k+1])
 //@   assume forall(z, 1, n+1, KONV[z-1]*10 == Fc[z] - Fc[z-1] + ite(z == dd, drain, 0.0))
 //@   prove profile: sum(k, 0, n, 21, C1n[k]) >= sum(k, 0, n, 21, C1a[k]) + sum(k, 0, n, 21, DNw[k]) - 100*Fc[n] - 100*ite(1 <= dd && dd <= n, drain, 0.0)
+
+// ---------------------------------------------------------------------------
+// C18  crop parameter override: representation invariant (total temperature sum), exact base parameters and stage sums,
+// all-or-nothing on an invalid or foreign override, frame.
+//@ global define validCrop(g, l) = 0 <= l.NRENTW && l.NRENTW <= 10 && 0 <= g.NRKOM && g.NRKOM <= 5 && l.tendsum == sum(i, 0, l.NRENTW, 10, g.TSUM[i])
+//@ global define perennialContinued(g) = g.DAUERKULT && g.AKF.Num > 2 && g.FRUCHT[g.AKF.Index] == g.FRUCHT[g.AKF.Index-1]
+
+//@ func CropOverwrite.OverwriteCropParameters
+//@   serves C18
+//@   ghost var basename string
+//@   ghost var valid bool = true
+//@   after call filepath.Base: ghost basename = res0
+//@   after call cropOW.isValidCropOverwrite: ghost valid = res0
+//@   define B() = cropOW.BaseFloatParameters
+//@   define D() = cropOW.DevelopmentStageParameters
+//@   define applied() = cropOW.CropFile == basename && valid
+//@   define basepar(name, now, before) = ite(indom(B(), name), now == B()[name], now == before)
+//@   requires crop: validCrop(g, l)
+//@   requires rotation: 1 <= g.AKF.Index && g.AKF.Index < 300
+//@   ensures sums: validCrop(g, l)
+//@   ensures rejected: !applied() ==> unchanged(g.MAXAMAX, g.MINTMP, g.WUMAXPF, g.VELOC, g.YIFAK, g.GEHOB, g.WUGEH, g.TSUM, g.BAS, g.VSCHWELL, g.DAYL, g.DLBAS, g.DRYSWELL, g.LUKRIT, g.LAIFKT, g.WGMAX, l.kc, g.PRO, g.DEAD, l.tendsum)
+//@   ensures base: applied() ==> basepar("MAXAMAX", g.MAXAMAX, old(g.MAXAMAX)) && basepar("MINTMP", g.MINTMP, old(g.MINTMP)) && basepar("WUMAXPF", g.WUMAXPF, old(g.WUMAXPF)) && basepar("YIFAK", g.YIFAK, old(g.YIFAK))
+//@   ensures veloc: applied() ==> ite(indom(B(), "VELOC"), g.VELOC == B()["VELOC"]/200, g.VELOC == old(g.VELOC))
+//@   ensures initn: applied() ==> ite(indom(B(), "INITCONCNBIOM") && !perennialContinued(g), g.GEHOB == B()["INITCONCNBIOM"]/100, g.GEHOB == old(g.GEHOB)) && ite(indom(B(), "INITCONCNROOT") && !perennialContinued(g), g.WUGEH == B()["INITCONCNROOT"]/100, g.WUGEH == old(g.WUGEH))
+//@   ensures tsum: applied() ==> forall(i, 0, 10, ite(indom2(D(), "TSUM", i+1), g.TSUM[i] == D()["TSUM"][i+1], g.TSUM[i] == old(g.TSUM[i])))
+//@   modifies g.MAXAMAX, g.MINTMP, g.WUMAXPF, g.VELOC, g.YIFAK, g.GEHOB, g.WUGEH, g.TSUM, g.BAS, g.VSCHWELL, g.DAYL, g.DLBAS, g.DRYSWELL, g.LUKRIT, g.LAIFKT, g.WGMAX, l.kc, g.PRO, g.DEAD, l.tendsum
+//@ loop CropOverwrite.OverwriteCropParameters@"for key, value := range cropOW.BaseFloatParameters {"
+//@   invariant sub: (visited("MAXAMAX") ==> indom(B(), "MAXAMAX")) && (visited("MINTMP") ==> indom(B(), "MINTMP")) && (visited("WUMAXPF") ==> indom(B(), "WUMAXPF")) && (visited("YIFAK") ==> indom(B(), "YIFAK")) && (visited("VELOC") ==> indom(B(), "VELOC")) && (visited("INITCONCNBIOM") ==> indom(B(), "INITCONCNBIOM")) && (visited("INITCONCNROOT") ==> indom(B(), "INITCONCNROOT"))
+//@   invariant base: ite(visited("MAXAMAX"), g.MAXAMAX == B()["MAXAMAX"], g.MAXAMAX == old(g.MAXAMAX)) && ite(visited("MINTMP"), g.MINTMP == B()["MINTMP"], g.MINTMP == old(g.MINTMP)) && ite(visited("WUMAXPF"), g.WUMAXPF == B()["WUMAXPF"], g.WUMAXPF == old(g.WUMAXPF)) && ite(visited("YIFAK"), g.YIFAK == B()["YIFAK"], g.YIFAK == old(g.YIFAK))
+//@   invariant veloc: ite(visited("VELOC"), g.VELOC == B()["VELOC"]/200, g.VELOC == old(g.VELOC))
+//@   invariant initn: ite(visited("INITCONCNBIOM") && !perennialContinued(g), g.GEHOB == B()["INITCONCNBIOM"]/100, g.GEHOB == old(g.GEHOB)) && ite(visited("INITCONCNROOT") && !perennialContinued(g), g.WUGEH == B()["INITCONCNROOT"]/100, g.WUGEH == old(g.WUGEH))
+//@ loop CropOverwrite.OverwriteCropParameters@"for key, stages := range cropOW.DevelopmentStageParameters {"
+//@   invariant sub: visited("TSUM") ==> indom(D(), "TSUM")
+//@   invariant tsum: ite(visited("TSUM"), forall(i, 0, 10, ite(indom2(D(), "TSUM", i+1), g.TSUM[i] == D()["TSUM"][i+1], g.TSUM[i] == old(g.TSUM[i]))), g.TSUM == old(g.TSUM))
+//@ loop CropOverwrite.OverwriteCropParameters#3
+//@   invariant sub: forallint(s, visited(s) ==> indom2(D(), "TSUM", s))
+//@   invariant tsum: forall(i, 0, 10, ite(visited(i+1), g.TSUM[i] == D()["TSUM"][i+1], g.TSUM[i] == old(g.TSUM[i])))
+//@ loop CropOverwrite.OverwriteCropParameters@"for i := 0; i < l.NRENTW; i++ { l.tendsum = l.tendsum + g.TSUM[i]"
+//@   invariant range: 0 <= \i && \i <= l.NRENTW
+//@   invariant partial: l.tendsum == sum(j, 0, \i, 10, g.TSUM[j])
+
+//@ func CropOverwrite.isValidCropOverwrite
+//@   serves C18
+//@   define B() = cropOW.BaseFloatParameters
+//@   define D() = cropOW.DevelopmentStageParameters
+//@   define inrange(name, lo, hi) = indom(B(), name) ==> lo <= B()[name] && B()[name] <= hi
+//@   requires domain: 0 <= numPartitions && numPartitions <= 5 && 0 <= numStages && numStages <= 10
+//@   ensures nofile: cropOW.CropFile == "" ==> !result0
+//@   ensures base: result0 ==> inrange("MAXAMAX", 0, 100) && inrange("MINTMP", 0-30, 50) && inrange("WUMAXPF", 0, 20) && inrange("VELOC", 0, 1) && inrange("YIFAK", 0, 1) && inrange("INITCONCNBIOM", 0, 100) && inrange("INITCONCNROOT", 0, 100)
+//@   ensures strict: result0 ==> (indom(B(), "MAXAMAX") ==> B()["MAXAMAX"] > 0) && (indom(B(), "VELOC") ==> B()["VELOC"] > 0) && (indom(B(), "WUMAXPF") ==> B()["WUMAXPF"] > 0)
+//@   ensures stages: result0 ==> forallkey(k, D(), forallint(s, indom2(D(), k, s) ==> 1 <= s && s <= numStages))
+//@   ensures tsum: result0 ==> forallint(s, indom2(D(), "TSUM", s) ==> 0 <= D()["TSUM"][s] && D()["TSUM"][s] <= 10000)
+//@   modifies nothing
+//@ loop CropOverwrite.isValidCropOverwrite#1
+//@   invariant base: (visited("MAXAMAX") ==> 0 < B()["MAXAMAX"] && B()["MAXAMAX"] <= 100) && (visited("MINTMP") ==> 0-30 < B()["MINTMP"] && B()["MINTMP"] < 50) && (visited("WUMAXPF") ==> 0 < B()["WUMAXPF"] && B()["WUMAXPF"] <= 20) && (visited("VELOC") ==> 0 < B()["VELOC"] && B()["VELOC"] <= 1) && (visited("YIFAK") ==> 0 <= B()["YIFAK"] && B()["YIFAK"] <= 1) && (visited("INITCONCNBIOM") ==> 0 <= B()["INITCONCNBIOM"] && B()["INITCONCNBIOM"] <= 100) && (visited("INITCONCNROOT") ==> 0 <= B()["INITCONCNROOT"] && B()["INITCONCNROOT"] <= 100)
+//@ loop CropOverwrite.isValidCropOverwrite#2
+//@   invariant stages: forallkey(k, D(), visited(k) ==> forallint(s, indom2(D(), k, s) ==> 1 <= s && s <= numStages))
+//@   invariant tsum: visited("TSUM") ==> forallint(s, indom2(D(), "TSUM", s) ==> 0 <= D()["TSUM"][s] && D()["TSUM"][s] <= 10000)
+//@ loop CropOverwrite.isValidCropOverwrite#3
+//@   invariant stages: forallint(s, visited(s) ==> 1 <= s && s <= numStages)
+//@ loop CropOverwrite.isValidCropOverwrite#4
+//@   invariant tsum: forallint(s, visited(s) ==> 0 <= stages[s] && stages[s] <= 10000)
+
+// both crop parameter readers establish the representation invariant that the override preserves
+//@ region ReadCropParamYml#stages from "l.tendsum = 0" to "for i := 0; i < l.NRENTW; i++ {"
+//@   serves C18
+//@   requires stages: 0 <= l.NRENTW && l.NRENTW <= 10 && 0 <= g.NRKOM && g.NRKOM <= 5
+//@   ensures sums: validCrop(g, l)
+//@ loop ReadCropParamYml@"for i := 0; i < l.NRENTW; i++ { l.ENDBBCH[i] ="
+//@   invariant range: 0 <= \i && \i <= l.NRENTW
+//@   invariant partial: l.tendsum == sum(j, 0, \i, 10, g.TSUM[j])
+//@   invariant frame: l.NRENTW == pre(l.NRENTW) && g.NRKOM == pre(g.NRKOM)
+
+//@ region ReadCropParamClassic#stages from "l.tendsum = 0" to "for i := 0; i < l.NRENTW; i++ {"
+//@   serves C18
+//@   requires stages: 0 <= l.NRENTW && l.NRENTW <= 10 && 0 <= g.NRKOM && g.NRKOM <= 5
+//@   ensures sums: validCrop(g, l)
+//@ loop ReadCropParamClassic@"for i := 0; i < l.NRENTW; i++ { developmentStageHeadline"
+//@   invariant range: 0 <= \i && \i <= l.NRENTW
+//@   invariant partial: l.tendsum == sum(j, 0, \i, 10, g.TSUM[j])
+//@   invariant frame: l.NRENTW == pre(l.NRENTW) && g.NRKOM == pre(g.NRKOM)
